@@ -24,13 +24,14 @@ CHECKS.update({
             "Coq proof (model = spec, all inputs) + extracted-model correspondence + extracted-spec oracle", "§3 C01"),
     "C08": ("proof", "unbounded theorems: partial_cmp = Some(value order), eq = value equality, all derived operators, min/max, and the "
             "four integer-comparison macro bodies for every integer of every type incl. alignment overflow; order laws proved on the "
-            "value order; rkyv archive identity is exercised by the tie only (partial, see DESIGN)",
+            "value order; with feature rkyv the archived comparison impls are the same macro body (same model) and archive/validate/deserialize identity, accessors and all archived/archived, archived/Decimal, Decimal/archived comparisons are compared with the Decimal results on every run, in the derived and in the hand-written packed layout (exploration, partial)",
             "Coq proof (model = spec, all inputs; order laws) + extracted-model correspondence + extracted-spec oracle", "§3 C08"),
     "C14": ("proof", "unbounded theorems: T::try_from(Decimal) for the ten integer types = specification (Ok iff integral and in range, "
             "NotAnIntValue first, ValueOutOfRange otherwise); From<int>, TryFrom<u128>",
             "Coq proof (model = spec, all inputs) + extracted-model correspondence + extracted-spec oracle", "§3 C14"),
     "C15": ("proof", "unbounded theorems: floor/ceil/trunc/fract/abs/neg/sign predicates = specification; log10 bit trick = floor(log10) "
-            "on all 0<v<2^128 (less_than_5 by complete sweep of 1..99999 inside Coq, cascade by proof); magnitude incl. zero",
+            "on all 0<v<2^128 (less_than_5 by complete sweep of 1..99999 inside Coq, cascade by proof); magnitude incl. zero; the num-traits forwarders "
+            "(Zero/One/Signed/Num) are compared with the inherent methods on every run in a build with the feature (exploration)",
             "Coq proof (model = spec, all inputs; finite sweep by vm_compute for the 17-bit kernel) + correspondence + oracle", "§3 C15"),
 })
 
@@ -67,14 +68,14 @@ CHECKS.update({
             "Coq proof (form agreement) + enumeration of all forwarding impls in the harness + model correspondence", "§3 C17"),
     "C20": ("proof", "theorems: models of + - % comparisons conversions do not depend on the profile at all (every overflow explicit after the fix: "
             "commits); round, unary operations, rounding and 256-bit kernels equal profile-free functions; * / *_rounded quantize accepted in every "
-            "profile; opt-level and packed layout are outside the model: differential builds (quick: dev + release; thorough: 16 configurations) (partial)",
+            "profile; opt-level and packed layout are outside the model: differential builds (quick: dev, release, each with and without packed; thorough: 16 configurations) (partial)",
             "Coq proof (profile-quantified theorems) + differential builds of the harness compared with each other and with the model", "§3 C20"),
 })
 
 CHECKS.update({
     "C07": ("proof", "unbounded theorems: String::from, Debug's inner text and Display without flags equal the canonical string (sign, integer part, "
             "'.', exactly f digits) for every well-formed Decimal; parse(to_string(d)) = d for every well-formed d in every profile (through the "
-            "parser theorems of C06: the canonical string is in the grammar, outside K2/K4, and denotes d); serde-as-str plumbing is tie only",
+            "parser theorems of C06: the canonical string is in the grammar, outside K2/K4, and denotes d); with feature serde-as-str serialize = to_string, deserialize(serialize d) = d and deserialize(s) = from_str(s) are compared on every run (serde's derive plumbing is outside the model: exploration)",
             PROVED, "§3 C07"),
     "C09": ("proof", "unbounded theorems: the binary gcd specialised to 10^e equals Z.gcd (loop by induction with a decreasing measure, a termination "
             "argument the Rust code only assumes), as_integer_ratio = the reduced fraction, which is unique; value-equal Decimals feed identical "
